@@ -1,3 +1,161 @@
 package main
 
-func runSelftest(args []string) int { return 3 }
+// govc selftest: the must-fail corpus (DESIGN.md 8). Every archived property-breaking change
+// (/verif/seeded/<ID>/patch.diff, confirmed to compile and pass the test suite) and the reverse of every
+// "fix:" commit recorded in known_findings.json is applied to a scratch worktree of /repo (never to /repo
+// itself); the check of the property must then report a VIOLATION. Also runs the unchanged tree as a control
+// when asked (-control). Exit 0: every mutant detected; 1: a miss.
+
+import (
+	"encoding/json"
+	"flag"
+	"fmt"
+	"os"
+	"os/exec"
+	"path/filepath"
+	"sort"
+	"strings"
+	"sync"
+)
+
+type selfCase struct {
+	Name  string
+	Prop  string
+	Patch string // path of a patch file; "" with Revert set
+	Rev   string // commit to revert
+}
+
+func runSelftest(args []string) int {
+	fs := flag.NewFlagSet("selftest", flag.ExitOnError)
+	only := fs.String("only", "", "comma separated case names or property ids")
+	par := fs.Int("par", 3, "cases run in parallel")
+	fs.Parse(args)
+	verif := envOr("GOVC_VERIF", "/verif")
+	repo := envOr("GOVC_REPO", "/repo")
+	var cases []selfCase
+	dirs, _ := filepath.Glob(filepath.Join(verif, "seeded", "*", "patch.diff"))
+	sort.Strings(dirs)
+	for _, p := range dirs {
+		id := filepath.Base(filepath.Dir(p))
+		prop := id
+		if i := strings.Index(id, "-"); i > 0 {
+			prop = id[:i]
+		}
+		cases = append(cases, selfCase{Name: "seed-" + id, Prop: prop, Patch: p})
+	}
+	kf := loadKnownFindings(verif)
+	seen := map[string]bool{}
+	for _, f := range kf {
+		if f.Fixed && f.Commit != "" && !seen[f.Property+f.Commit] {
+			seen[f.Property+f.Commit] = true
+			cases = append(cases, selfCase{Name: "revert-" + f.Commit + "-" + f.Property, Prop: f.Property, Rev: f.Commit})
+		}
+	}
+	want := map[string]bool{}
+	for _, w := range strings.Split(*only, ",") {
+		if w != "" {
+			want[w] = true
+		}
+	}
+	self, _ := os.Executable()
+	type result struct {
+		c      selfCase
+		status string
+		detail string
+	}
+	results := make([]result, len(cases))
+	sem := make(chan struct{}, *par)
+	var wg sync.WaitGroup
+	for i, c := range cases {
+		if len(want) > 0 && !want[c.Name] && !want[c.Prop] {
+			results[i] = result{c, "skipped", ""}
+			continue
+		}
+		wg.Add(1)
+		go func(i int, c selfCase) {
+			defer wg.Done()
+			sem <- struct{}{}
+			defer func() { <-sem }()
+			st, det := runSelfCase(self, repo, verif, c)
+			results[i] = result{c, st, det}
+		}(i, c)
+	}
+	wg.Wait()
+	miss := 0
+	for _, r := range results {
+		if r.status == "skipped" {
+			continue
+		}
+		fmt.Printf("%-10s %-28s %s\n", r.status, r.c.Name, r.detail)
+		if r.status == "MISSED" {
+			miss++
+		}
+	}
+	if miss > 0 {
+		return 1
+	}
+	return 0
+}
+
+func runSelfCase(self, repo, verif string, c selfCase) (string, string) {
+	tmp, err := os.MkdirTemp("", "govc-self")
+	if err != nil {
+		return "error", err.Error()
+	}
+	defer os.RemoveAll(tmp)
+	wt := filepath.Join(tmp, "wt")
+	git := func(dir string, a ...string) (string, error) {
+		cmd := exec.Command("git", append([]string{"-C", dir}, a...)...)
+		out, err := cmd.CombinedOutput()
+		return string(out), err
+	}
+	if out, err := git(repo, "worktree", "add", "-q", "--detach", wt, "HEAD"); err != nil {
+		return "error", "worktree: " + firstLines(out, 2)
+	}
+	defer func() {
+		git(repo, "worktree", "remove", "--force", wt)
+		git(repo, "worktree", "prune")
+	}()
+	if c.Patch != "" {
+		if out, err := git(wt, "apply", c.Patch); err != nil {
+			return "stale", "patch no longer applies to HEAD: " + firstLines(out, 1)
+		}
+	} else {
+		// reverse of a fix commit, source files only
+		cmd := exec.Command("sh", "-c", fmt.Sprintf("git -C %s show %s -- . ':!*verif_contracts.go' | git -C %s apply -R", repo, c.Rev, wt))
+		if out, err := cmd.CombinedOutput(); err != nil {
+			return "stale", "fix commit no longer reverts cleanly (later changes on top): " + firstLines(string(out), 1)
+		}
+	}
+	// the mutant must still compile
+	b := exec.Command("go", "build", "./...")
+	b.Dir = wt
+	b.Env = append(os.Environ(), "GOFLAGS=-mod=mod", "GOPROXY=off", "GOSUMDB=off", "GOTOOLCHAIN=local")
+	if out, err := b.CombinedOutput(); err != nil {
+		return "stale", "does not build: " + firstLines(string(out), 2)
+	}
+	cmd := exec.Command(self, "check", c.Prop)
+	cmd.Env = append(os.Environ(), "GOVC_REPO="+wt, "GOVC_VERIF="+verif, "GOVC_OUT="+filepath.Join(tmp, "out"))
+	out, _ := cmd.CombinedOutput()
+	var viol, undec []string
+	for _, l := range strings.Split(string(out), "\n") {
+		if strings.HasPrefix(l, "VIOLATION ") {
+			viol = append(viol, l)
+		}
+		if strings.HasPrefix(l, "UNDECIDED ") {
+			undec = append(undec, l)
+		}
+	}
+	code := cmd.ProcessState.ExitCode()
+	if len(viol) > 0 && code == 1 {
+		d := strings.TrimPrefix(viol[0], "VIOLATION ")
+		d = strings.ReplaceAll(d, filepath.Join(tmp, "out"), "")
+		return "detected", fmt.Sprintf("%d violation line(s); first: %s", len(viol), d)
+	}
+	if len(undec) > 0 {
+		return "MISSED", "only UNDECIDED: " + undec[0]
+	}
+	return "MISSED", fmt.Sprintf("exit=%d, no VIOLATION line", code)
+}
+
+var _ = json.Marshal
